@@ -57,5 +57,9 @@ pub fn properties_of(e: &Event, scn: &Scenario) -> Vec<&'static str> {
     if e.during_user_unwind && !scn.cfg.faults.raw_faults() && matches!(e.clause, Clause::BadRelease) {
         v.push("C11");
     }
+    // a lock still held when the unwind has given the key back is also "key back while holding"
+    if matches!(e.clause, Clause::LeakAfterUserPanic) {
+        v.push("C03");
+    }
     v
 }
